@@ -146,6 +146,9 @@ func c01Finding(k jsonCase, v reflect.Value) string       { return "" }
 func c01FindingNoHTML(k jsonCase, v reflect.Value) string { return "" }
 
 func c01Vector(c *Ctx, raw stdjson.RawMessage) {
+	if strDispatch(c, raw) {
+		return
+	}
 	var v jsonVec
 	if err := stdjson.Unmarshal(raw, &v); err != nil {
 		return
@@ -169,6 +172,9 @@ func c01Vector(c *Ctx, raw stdjson.RawMessage) {
 }
 
 func c01Replay(c *Ctx, raw stdjson.RawMessage) {
+	if strDispatch(c, raw) {
+		return
+	}
 	var k jsonCase
 	if stdjson.Unmarshal(raw, &k) != nil {
 		return
@@ -610,6 +616,9 @@ func c02Finding(k jsonCase, doc string, t reflect.Type) string {
 var c02Modes = []string{"Unmarshal", "Parse", "Decoder", "UseNumber", "Disallow", "UseNumber+Disallow"}
 
 func c02Vector(c *Ctx, raw stdjson.RawMessage) {
+	if strDispatch(c, raw) {
+		return
+	}
 	var gv grammarVec
 	if stdjson.Unmarshal(raw, &gv) == nil && gv.M != "" {
 		c02Grammar(c, &gv, raw)
@@ -715,6 +724,9 @@ func c02Grammar(c *Ctx, gv *grammarVec, raw stdjson.RawMessage) {
 }
 
 func c02Replay(c *Ctx, raw stdjson.RawMessage) {
+	if strDispatch(c, raw) {
+		return
+	}
 	var k jsonCase
 	if stdjson.Unmarshal(raw, &k) != nil {
 		return
